@@ -49,7 +49,7 @@ PROPS = {
     ),
     "C14": dict(
         module="SeliumModel.Props.C14",
-        suites=["codec", "e2esub"],
+        suites=["codec", "e2esub", "e2epub"],
         level="proof",
         rule="string/bytes codecs on valid, invalid (every class of RFC 3629 violation at random positions) and random byte strings; BincodeCodec<T> for 9 Rust types (String, u64, Vec<u8>, tuple, Vec<String>, Option<String>, struct, enum, nested) on valid encodings, truncations, bit flips, adversarial lengths, trailing bytes; "
              "compression round trip for every algorithm x mode x level (gzip/zlib 0-9+presets, zstd 10 levels+presets, lz4, brotli generic/text/font 0-11+presets) x 7 payload classes (empty, tiny, incompressible, repetitive, text, periodic, 64k random; thorough adds 1 MiB); "
